@@ -36,8 +36,8 @@ def run_X1(chk):
     f = prog.func(TKR, "expand_krylov_space")
     fn = f.node
     par = A.enclosing_map(fn)
-    Vn, Hn = "V", "H"
-    chk.require(Vn in f.params and Hn in f.params, "expand_krylov_space: parameters V, H not found")
+    chk.require(len(f.params) >= 7, "expand_krylov_space: parameters (self, f, tol, ncv, hermitian, V, H) not found")
+    Vn, Hn = f.params[5], f.params[6]
     outer = [n for n in fn.body if isinstance(n, ast.For)]
     chk.require(len(outer) == 1, "expand_krylov_space: main loop not found")
     loop = outer[0]
@@ -164,27 +164,35 @@ def _start_rule(chk, f, start, basis_stmt_pred, zero_must_raise):
 
 def run_X2(chk):
     prog = chk.prog
-    _start_rule(chk, prog.func(KRY, "eigs"), "v0", None, True)
-    _start_rule(chk, prog.func(KRY, "lin_solver"), "q0", None, True)
+    eg = prog.func(KRY, "eigs")
+    _start_rule(chk, eg, eg.params[1], None, True)
+    ls = prog.func(KRY, "lin_solver")
+    fpar, bpar, v0 = ls.params[0], ls.params[1], ls.params[2]
+    # lin_solver: the Krylov space starts from the residual b - f(v0) of the initial guess
+    q0 = [n for n in ast.walk(ls.node) if isinstance(n, ast.Assign) and isinstance(n.targets[0], ast.Name)
+          and _sub_text(n.value) in (f"{bpar}-{fpar}({v0})",)]
+    chk.verdict("X2", (ls, q0[0] if q0 else ls.node), q0[0] if q0 else "start residual", True if q0 else False,
+                "lin_solver: the Krylov space must start from the residual b - f(v0) of the initial guess")
+    if not q0:
+        raise AnalysisError("lin_solver: start residual not found")
+    _start_rule(chk, ls, q0[0].targets[0].id, None, True)
     ex = prog.func(KRY, "expmv")
-    _start_rule(chk, ex, "v", None, False)
+    vpar = ex.params[1]
+    _start_rule(chk, ex, vpar, None, False)
     # expmv: zero vector raises when normalisation is requested, otherwise no time is propagated
-    g = [n for n in ast.walk(ex.node) if isinstance(n, ast.If) and _sub_text(n.test) in ("normv==0", "notnormv")]
+    b = A.local_bindings(ex.node)
+    nvs = [nm for nm, ds in b.items() for st, v, k in ds if k == "assign" and isinstance(v, ast.Call) and A.callee_attr(v) == "norm"
+           and isinstance(v.func, ast.Attribute) and A.text(v.func.value) == vpar]
+    nv = nvs[0] if nvs else "?"
+    g = [n for n in ast.walk(ex.node) if isinstance(n, ast.If) and _sub_text(n.test) in (f"{nv}==0", f"not{nv}", f"{nv}==0.0")]
     ok = False
     if g:
         inner = [x for x in g[0].body if isinstance(x, ast.If) and A.text(x.test) == "normalize" and any(isinstance(y, ast.Raise) for y in x.body)]
         zero_t = [x for x in g[0].body if isinstance(x, ast.Assign) and A.neg_const(x.value) == 0]
         whiles = [x for x in ast.walk(ex.node) if isinstance(x, ast.While)]
-        ok = bool(inner) and bool(zero_t) and bool(whiles) and A.text(zero_t[0].targets[0]) in A.text(whiles[0].test)
+        ok = bool(inner) and bool(zero_t) and bool(whiles) and A.text(zero_t[0].targets[0]) in {x.id for x in ast.walk(whiles[0].test) if isinstance(x, ast.Name)}
     chk.verdict("X2", (ex, g[0] if g else ex.node), "expmv: zero vector -> raise if normalize else nothing to propagate", True if ok else False,
                 "expmv: a zero start vector must raise when it is to be normalised and otherwise skip the propagation loop")
-    # lin_solver: start residual q0 = b - f(v0)
-    ls = prog.func(KRY, "lin_solver")
-    q0 = [n for n in ast.walk(ls.node) if isinstance(n, ast.Assign) and A.text(n.targets[0]) == "q0"]
-    fpar, bpar, v0 = ls.params[0], ls.params[1], ls.params[2]
-    ok = bool(q0) and _sub_text(q0[0].value) == f"{bpar}-{fpar}({v0})"
-    chk.verdict("X2", (ls, q0[0] if q0 else ls.node), q0[0] if q0 else "q0", True if ok else False,
-                "lin_solver: the Krylov space must start from the residual b - f(v0) of the initial guess")
 
 
 def run_X3(chk):
@@ -220,12 +228,17 @@ def run_X4(chk):
     cfg = CFG(fn)
     b = A.local_bindings(fn)
     # accumulator of the norm: normv = v.norm(); normv = normv * normF with normF = norm of the small propagator column; F = F / normF
-    acc = [n for n in ast.walk(fn) if isinstance(n, ast.Assign) and A.text(n.targets[0]) == "normv" and isinstance(n.value, ast.BinOp) and isinstance(n.value.op, ast.Mult)]
+    vpar = f.params[1]
+    nvs = [nm for nm, ds in b.items() for st, v, k in ds if k == "assign" and isinstance(v, ast.Call) and A.callee_attr(v) == "norm"
+           and isinstance(v.func, ast.Attribute) and A.text(v.func.value) == vpar]
+    chk.require(nvs, "expmv: norm of the start vector not found")
+    normv = nvs[0]
+    acc = [n for n in ast.walk(fn) if isinstance(n, ast.Assign) and A.text(n.targets[0]) == normv and isinstance(n.value, ast.BinOp) and isinstance(n.value.op, ast.Mult)]
     if not acc:
         chk.bad("X4", f, "normv = normv * <norm of the sub-step amplitudes>", "expmv: the running norm is never multiplied by the norm of the sub-step "
                 "amplitudes: the returned vector has the wrong norm when normalize=False")
         return
-    other = acc[0].value.right if A.text(acc[0].value.left) == "normv" else acc[0].value.left
+    other = acc[0].value.right if A.text(acc[0].value.left) == normv else acc[0].value.left
     nf = A.text(other)
     nfdef = [v for s_, v, k in b.get(nf, []) if k == "assign"]
     fdiv = [n for n in ast.walk(fn) if isinstance(n, ast.Assign) and isinstance(n.value, ast.BinOp) and isinstance(n.value.op, ast.Div)
@@ -242,9 +255,12 @@ def run_X4(chk):
     chk.verdict("X4", (f, comb[0] if comb else fn), comb[0] if comb else "v = V[0].add(...)", True if ok else False,
                 "expmv: the new vector must be assembled from the normalised amplitudes after the running norm was updated")
     # final: v = normv * v exactly when normalize is False
-    fin = [n for n in ast.walk(fn) if isinstance(n, ast.Assign) and A.text(n.targets[0]) == "v" and isinstance(n.value, ast.BinOp)
-           and isinstance(n.value.op, ast.Mult) and {A.text(n.value.left), A.text(n.value.right)} == {"normv", "v"}]
-    chk.require(fin, "expmv: final rescaling `v = normv * v` not found")
+    fin = [n for n in ast.walk(fn) if isinstance(n, ast.Assign) and A.text(n.targets[0]) == vpar and isinstance(n.value, ast.BinOp)
+           and isinstance(n.value.op, ast.Mult) and {A.text(n.value.left), A.text(n.value.right)} == {normv, vpar}]
+    if not fin:
+        chk.bad("X4", f, "final rescaling by the accumulated norm", "expmv: the result is never multiplied by the accumulated norm: with normalize=False "
+                "the unit-norm vector is returned instead of the vector with its true norm")
+        return
     off = cfg.specialised({"normalize": False})
     on = cfg.specialised({"normalize": True})
     ok_off = off.always_followed(off.entry.id, fin, strict=True)
